@@ -444,6 +444,8 @@ func checkC09(c *Ctx) {
 		}
 	}
 	r.OK("C09.S2", "compile-globals", "", fmt.Sprintf("%d functions in reach of %s: %d package-level variables written (monotone atomic counters excepted)", len(cfuncs), FuncKey(core.compile), cstate))
+	// S3: reusable after a failing document: a lock taken on the validation path is released on every exit, panics included
+	locksReleasedByDefer(c, "C09.S3", "locks taken while validating are released on every exit (deferred unlock)", "every later validation with any compiled profile blocks forever", funcs)
 	// the compiled profile is only read
 	for _, fn := range funcs {
 		for i, prm := range fn.Params {
